@@ -56,6 +56,7 @@ def run(ctx):
     if not getattr(ctx, "_included_c03", False) and ctx.prop == "C04":
         ctx.include("C03", rules=("R9", "R1"))
     ctx.include("C14", rules=("R3", "R4"))      # a pointer that cannot be expressed in 14 bits, or points forward, is not well-formed
+    ctx.include("C14", rules=("R5",))           # nor is a name longer than 255 octets, which is relayed if the decoder lets it in
     cg = callgraph(P)
     cands = [f for f in fn_with_sig(P, *SWS_SIG) if f in P.bodies and "serialise" in f]
     ctx.floor("anchor", "size-limited serialiser", len(cands), 1)
